@@ -126,8 +126,9 @@ func (r *Runner) Run() int {
 	stats := &sym.SolverStats{}
 	pool := &sym.Pool{Prog: r.Prog, Workers: r.Workers, Timeout: qto, Deadline: t0.Add(budget), Stats: stats}
 	if os.Getenv("VERIF_NOCROSS") == "" {
-		pool.CrossKinds = []string{"z3-new", "cvc5"}
+		pool.CrossKinds = []string{"z3", "cvc5"}
 	}
+	pool.Primary = envOr("VERIF_SOLVER", "z3-new")
 	r.Prog.CrossEvery = 40
 	pool.Profile = os.Getenv("VERIF_PROFILE") != ""
 	results := pool.Run(specs)
